@@ -1,2 +1,3 @@
 import ZxVerif.Props.C17
 import ZxVerif.Props.C10
+import ZxVerif.Props.C11
